@@ -98,6 +98,8 @@ def spec_wg(tier):
         grid += [{"src": s, "wts": w} for s in ("c", "da", "ac") for w in ("wi", "tw", "ws", "io", "ww", "ts")]
     # M without a unit of its own: the count reaches zero while Attach / Consume is still in progress
     grid += [{"src": s, "wts": w, "own": "0"} for s in ("a", "c") for w in ("w", "i", "t", "wi")]
+    # one Attach / Consume call for two futures, with and without M's own unit (monitors only)
+    grid += [{"src": s, "wts": w, "own": o, "batch": "1"} for s in ("aa", "cc") for w in ("w", "i") for o in ("0", "1")]
     rand = [{"src": "dac", "wts": "wis"}, {"src": "ca", "wts": "wti"}, {"src": "dd", "wts": "iso"}, {"src": "S", "wts": "tis"}]
     mc = [("WaitGroup_MC.cfg", 8, 900, "WaitGroup: sources {d,a,c,S,da} x waiters {w,t,i,s,o,wi,tw,ws}, all interleavings"),
           ("WaitGroup_Live.cfg", 4, 900, "WaitGroup: <>Quiescent under weak fairness of every thread (every waiter is eventually "
@@ -114,7 +116,7 @@ def spec_wg(tier):
         mc_cfgs=mc,
         dfs_max=1200 if tier == "quick" else 8000, preempt=2 if tier == "quick" else 3,
         rand_execs=150 if tier == "quick" else 2500, rand_grid=rand,
-        scen_keys=["src", "wts", "own"], trace_timeout=1500)
+        scen_keys=["src", "wts", "own", "batch"], trace_timeout=1500)
 
 
 def spec_comutex(tier):
